@@ -25,3 +25,4 @@ def run(chk):
     chk.require('comp_far_address_sets', 10)
     chk.require('prefix_pairs', 10)
     chk.min_cases = 1000
+    chk.coverage(build('cov'), 600)       # thorough tier: gcov line coverage of the anchored sources under this workload
